@@ -260,6 +260,7 @@ impl Track {
         let mut voice: isize = -1;
         let mut ch: isize = 0;
         for _ in 0..128 { cc_values.push(-1); }
+        self.events_sort(); // the values in force at the point are the latest in time, not the last written
         for e in self.events.iter() {
             match e.etype {
                 EventType::Meta | EventType::SysEx => {
